@@ -89,12 +89,17 @@ Definition f64_to_int (f : spec_float) : option Z :=
 
 (** float32(v) for float64 v: round to nearest even at 24 bits; finite overflow is an error (fix),
     Inf and NaN pass through. *)
+(** Every float in the model is kept in canonical binary64 form (a float32 is exactly
+    representable), so that SpecFloat's comparisons, which assume canonical operands, apply. *)
+Definition to64 (f : spec_float) : spec_float :=
+  match f with S754_finite s m e => binary_round prec64 emax64 s m e | _ => f end.
+
 Definition f64_to_f32 (f : spec_float) : option spec_float :=
   match f with
   | S754_finite s m e =>
     match binary_round prec32 emax32 s m e with
     | S754_infinity _ => None
-    | r => Some r
+    | r => Some (to64 r)
     end
   | _ => Some f
   end.
